@@ -265,8 +265,9 @@ def _namedtuple_replace_attr(ex, st, obj, name, node):
 # ENGINE  The obligations of the builder contracts carry 150-300 hypotheses (type facts and dictionary invariants under
 #         binders); z3's E-matching is unstable on them (the same goal is proved in 0.03 s from the 40 most recent
 #         hypotheses and times out from all of them).  For C05/C06 obligations the most recent k hypotheses are tried
-#         first (k = 40, 60, 90, 130; short timeouts).  A proof from a SUBSET of the hypotheses is a proof; when no
-#         subset attempt succeeds the core portfolio runs unchanged on the full set.
+#         first, then relevance-filtered subsets (all ground hypotheses + the most recent quantified ones that are not
+#         mere type invariants; short timeouts).  A proof from a SUBSET of the hypotheses is a proof; when no subset
+#         attempt succeeds the core portfolio runs unchanged on the full set.
 _patched = [False]
 
 
@@ -279,27 +280,47 @@ def _patch_discharge():
     from pyvc import verify as _verify
     _orig_discharge = _verify.discharge
 
+    def _type_only(e):
+        """a (quantified) fact whose consequents are only datatype testers / is_int: a type invariant under a binder"""
+        if z3.is_quantifier(e):
+            return e.is_forall() and _type_only(e.body())
+        if z3.is_app(e):
+            k = e.decl().kind()
+            if k == z3.Z3_OP_IMPLIES:
+                return _type_only(e.arg(1))
+            if k == z3.Z3_OP_AND:
+                return all(_type_only(c) for c in e.children())
+            if k == z3.Z3_OP_DT_IS or e.decl().name() == 'is_int':
+                return True
+        return False
+
     def _discharge(ob, timeout_ms, witness_terms):
         if ENABLED and ob.name.split(':', 1)[0] in PROPS and len(ob.hyps) > 50:
             t0 = _time.time()
-            for k in (len(ob.hyps), 40, 60, 90, 130):
-                if k > len(ob.hyps) or (k == len(ob.hyps) and k in (40, 60, 90, 130)):
-                    break
+            H = ob.hyps
+            quant = [h for h in H if _verify.has_quantifier(h)]
+            ground = [h for h in H if not _verify.has_quantifier(h)]
+            nontype = [h for h in quant if not _type_only(h)]
+            plans = [('', H, 1000),
+                     (f'(ground + last 40 quantified non-type hypotheses of {len(H)})', ground + nontype[-40:], 2000),
+                     (f'(without the {len(quant) - len(nontype)} type-only quantified hypotheses of {len(H)})', ground + nontype, 2500),
+                     (f'(ground + last 120 quantified non-type hypotheses of {len(H)})', ground + nontype[-120:], 2500),
+                     (f'(last 60 of {len(H)} hypotheses)', H[-60:], 1500)]
+            for label, hyps, tmo in plans:
                 s = z3.Solver()
-                s.set('timeout', min(1000 if k == len(ob.hyps) else 1500, timeout_ms))
+                s.set('timeout', min(tmo, timeout_ms))
                 for a in _verify.background_axioms():
                     s.add(a)
-                s.add(*ob.hyps[-k:])
+                s.add(*hyps)
                 s.add(z3.Not(ob.goal))
                 try:
                     r = str(s.check())
                 except z3.Z3Exception:
                     break
-                if r == 'sat' and k == len(ob.hyps):
+                if r == 'sat' and not label:
                     break          # a counter-model of the full set: let the core portfolio decode it
                 if r == 'unsat':
-                    return _verify.OblResult(ob.name, ob.kind, 'discharged',
-                                             f'z3-{z3.get_version_string()}' + ('' if k == len(ob.hyps) else f'(last {k} of {len(ob.hyps)} hypotheses)'),
+                    return _verify.OblResult(ob.name, ob.kind, 'discharged', f'z3-{z3.get_version_string()}' + label,
                                              round(_time.time() - t0, 4), ob.line, ob.func, ob.note, None, 0)
         return _orig_discharge(ob, timeout_ms, witness_terms)
 
